@@ -96,6 +96,28 @@ func checkC14(p *core.Program, r *core.Report) {
 		} else {
 			r.OK(R4, key, p.Pos(a.sel.Pos()), "select is not in a loop")
 		}
+		// R1b: the time source is per arm as well
+		for _, st := range a.sel.States {
+			if st.Dir != types.RecvOnly || !isTimerChan(st.Chan) {
+				continue
+			}
+			key := "time source of timer goroutine of " + name
+			src := core.Canon(st.Chan)
+			fresh := false
+			if c, ok := src.(*ssa.Call); ok && core.CalleeName(&c.Call) == "time.After" {
+				fresh = true
+			} else if f, base := core.LoadedField(src); f != nil && f.Name() == "C" {
+				// *time.Timer: must be created by time.NewTimer in this arming invocation
+				if c, ok := core.Canon(base).(*ssa.Call); ok && core.CalleeName(&c.Call) == "time.NewTimer" && (c.Parent() == a.fn || c.Parent() == a.body) {
+					fresh = true
+				}
+			}
+			if fresh {
+				r.OK(R1, key, p.Pos(a.sel.Pos()), "a fresh timer channel per arm")
+			} else {
+				r.Fail(R1, key, p.Pos(a.sel.Pos()), "the timer goroutine waits on a timer that is shared between arms (re-used / Reset): a stale expiry of a stopped timer is delivered to the next armed one")
+			}
+		}
 		// R1
 		var token ssa.Value
 		nOther := 0
